@@ -128,7 +128,7 @@ func genMuxFault(seed uint64, n int, maxOps int, emit func(interface{})) {
 	r := newRng(seed)
 	for s := 0; s < n; s++ {
 		hdr := muxHdrClasses[r.intn(len(muxHdrClasses))]
-		af := r.pickS("none", "none", "pcr", "rai")
+		af := r.pickS("none", "none", "pcr", "rai", "rich", "priv10")
 		c1 := 184 - afTotalLen(af) - pesHeaderLen(hdr)
 		stuff := []int{0, 1, 2, 3, 50}[s%5]
 		base := muxScenario{Kind: "mux", Seed: r.u64() >> 1, Period: r.pick(1, 2, 40)}
@@ -148,12 +148,13 @@ func genMuxFault(seed uint64, n int, maxOps int, emit func(interface{})) {
 		for i := 0; i < extra && i < 4; i++ {
 			switch r.intn(4) {
 			case 0:
-				base.Ops = append(base.Ops, muxOp{Op: "packet", Kind: r.pickS("null", "short", "pcr")})
+				base.Ops = append(base.Ops, muxOp{Op: "packet", Kind: r.pickS("null", "short", "pcr", "richaf")})
 			case 1:
 				base.Ops = append(base.Ops, muxOp{Op: "tables"})
 			default:
 				h2 := muxHdrClasses[r.intn(len(muxHdrClasses))]
-				base.Ops = append(base.Ops, muxOp{Op: "data", PID: 256, Len: 184 - pesHeaderLen(h2) - []int{0, 1, 2, 7}[r.intn(4)], Hdr: h2, AF: "none"})
+				af2 := r.pickS("none", "none", "rich")
+				base.Ops = append(base.Ops, muxOp{Op: "data", PID: 256, Len: 184 - afTotalLen(af2) - pesHeaderLen(h2) - []int{0, 1, 2, 7}[r.intn(4)], Hdr: h2, AF: af2})
 			}
 		}
 		W := countWrites(base)
